@@ -1484,3 +1484,132 @@ func genArchPkgver(repo, out string) {
 	}
 	writeIfChanged(filepath.Join(out, "ArchPkgver.v"), b.String())
 }
+
+// ---- deb.createTriggers: a table of (directive, list of names) and a nested loop printing "directive name\n" ----
+func genTriggersFn(repo, out string) {
+	keys := yamlKeys(parseFile(filepath.Join(repo, "nfpm.go")))
+	f := parseFile(filepath.Join(repo, "deb/deb.go"))
+	c := &trCtx{}
+	var rows []string
+	lineFmt := ""
+	var fd *ast.FuncDecl
+	for _, d := range f.Decls {
+		if x, ok := d.(*ast.FuncDecl); ok && x.Name.Name == "createTriggers" && x.Body != nil {
+			fd = x
+		}
+	}
+	func() {
+		if fd == nil {
+			c.fail("no function createTriggers in deb/deb.go")
+			return
+		}
+		var table *ast.CompositeLit
+		var outer *ast.RangeStmt
+		for _, st := range fd.Body.List {
+			switch x := st.(type) {
+			case *ast.AssignStmt:
+				if cl, ok := x.Rhs[0].(*ast.CompositeLit); ok {
+					table = cl
+				}
+			case *ast.RangeStmt:
+				outer = x
+			}
+		}
+		if table == nil || outer == nil {
+			c.fail("no table literal or no loop over it")
+			return
+		}
+		for _, el := range table.Elts {
+			row, ok := el.(*ast.CompositeLit)
+			if !ok || len(row.Elts) != 2 {
+				c.fail("table row that is not {directive, &names}")
+				return
+			}
+			dir, ok := strLit(row.Elts[0])
+			ue, ok2 := row.Elts[1].(*ast.UnaryExpr)
+			if !ok || !ok2 || ue.Op != token.AND {
+				c.fail("table row that is not {directive, &names}")
+				return
+			}
+			// &info.Deb.Triggers.<Field>
+			var chain []string
+			e := ue.X
+			for {
+				se, ok := e.(*ast.SelectorExpr)
+				if !ok {
+					break
+				}
+				chain = append([]string{se.Sel.Name}, chain...)
+				e = se.X
+			}
+			if id, ok := e.(*ast.Ident); !ok || id.Name != "info" || len(chain) != 3 || chain[0] != "Deb" || chain[1] != "Triggers" {
+				c.fail("names that are not a field of info.Deb.Triggers")
+				return
+			}
+			k, ok := keys[chain[2]]
+			if !ok || k == "" {
+				c.fail("no yaml key for %s", chain[2])
+				return
+			}
+			rows = append(rows, "("+coqStr(dir)+", \"deb.triggers."+k+"\"%string)")
+		}
+		// for _, e := range table { for _, n := range *e.Names { fmt.Fprintf(&buffer, FORMAT, e.Directive, n) } }
+		if len(outer.Body.List) != 1 {
+			c.fail("outer loop body outside the subset")
+			return
+		}
+		inner, ok := outer.Body.List[0].(*ast.RangeStmt)
+		if !ok || len(inner.Body.List) != 1 {
+			c.fail("no inner loop over the names")
+			return
+		}
+		es, ok := inner.Body.List[0].(*ast.ExprStmt)
+		if !ok {
+			c.fail("inner loop body is not a Fprintf")
+			return
+		}
+		ce, ok := es.X.(*ast.CallExpr)
+		if !ok || len(ce.Args) != 4 {
+			c.fail("inner loop body is not a Fprintf of two values")
+			return
+		}
+		ft, ok := strLit(ce.Args[1])
+		a1, ok1 := ce.Args[2].(*ast.SelectorExpr)
+		a2, ok2 := ce.Args[3].(*ast.Ident)
+		nv, _ := inner.Value.(*ast.Ident)
+		if !ok || !ok1 || !ok2 || nv == nil || a1.Sel.Name != "Directive" || a2.Name != nv.Name {
+			c.fail("Fprintf arguments are not (directive, name)")
+			return
+		}
+		parts := strings.Split(ft, "%s")
+		if len(parts) != 3 || strings.Contains(parts[0]+parts[1]+parts[2], "%") {
+			c.fail("format %q is not two %%s", ft)
+			return
+		}
+		var ps []string
+		add := func(lit string) {
+			if lit != "" {
+				ps = append(ps, coqStr(lit))
+			}
+		}
+		add(parts[0])
+		ps = append(ps, "d")
+		add(parts[1])
+		ps = append(ps, "n")
+		add(parts[2])
+		expr := ps[len(ps)-1]
+		for k := len(ps) - 2; k >= 0; k-- {
+			expr = ps[k] + " ++ " + expr
+		}
+		lineFmt = expr
+	}()
+	var b strings.Builder
+	b.WriteString("(* GENERATED from /repo (deb/deb.go: createTriggers; yaml keys from nfpm.go) on every run by translators/strfn.go (genTriggersFn) - do not edit *)\n")
+	b.WriteString("From Coq Require Import List String Bool.\nFrom Coq Require Import Strings.Byte.\nFrom NfpmV Require Import Lib.Bytes Model.Content Model.Meta.\nImport ListNotations.\nOpen Scope list_scope.\n\n")
+	if c.err != "" {
+		fmt.Fprintf(&b, "(* UNTRANSLATABLE - %s *)\nDefinition src_deb_triggers (i : minfo) : str := [].\nDefinition src_deb_triggers_translated : bool := false.\n", c.err)
+	} else {
+		fmt.Fprintf(&b, "Definition src_deb_triggers (i : minfo) : str :=\n  flat_map (fun '(d, k) => flat_map (fun n => %s) (gl i k))\n    [%s].\nDefinition src_deb_triggers_translated : bool := true.\n", lineFmt, strings.Join(rows, ";\n     "))
+	}
+	writeIfChanged(filepath.Join(out, "TriggersFn.v"), b.String())
+}
